@@ -159,4 +159,7 @@ impl Default for GroupOrderingFull {
 // proof harnesses for this module in from the directory named by
 // DATAFUSION_VERIF_DIR so that they can reach private items.
 #[cfg(kani)]
-include!(concat!(env!("DATAFUSION_VERIF_DIR"), "/kani/physical_plan/order_full.rs"));
+include!(concat!(
+    env!("DATAFUSION_VERIF_DIR"),
+    "/kani/physical_plan/order_full.rs"
+));
